@@ -212,6 +212,9 @@ def run(tier, seed):
             bad += 1
             ck.violation('C06:generated:%s' % '-'.join(re.sub(r'[^a-z ]+', ' ', probs[0].lower()).split()[:4]), probs[0],
                          {'kind': 'failing-input', 'case': case, 'problems': probs}, found=True)
+    # real forms: after a finished solve nobody still waits on something that has been met (blank enumeration values included)
+    sf.run_real_monitor(ck, 40 if tier == 'quick' else 500, rng,
+                        lambda H_, res, sc_: sf.mon_lost_waiter(H_, res['solver'], res['ok'], res['store'], res['exc']), 'C06')
     ck.sample({'history': hists[7], 'python_observations': py_history(H, hists[7])})
     return sf.finish_family(ck, 'C06')
 
